@@ -218,6 +218,7 @@ func checkC05(r *harness.Run) harness.Coverage {
 	hostile := univ.FuncFragment(append(model.FunctionNames(), "nosuch"))
 	hostile.Leaves = append(hostile.Leaves, univ.Tks("`9223372036854775807`", "`-1e999`", "'\xff\xfe'", "'é😀'", "`\"\\ud800\"`", "`[[[[[[1]]]]]]`")...)
 	hostile.Idents = append(hostile.Idents, univ.Tks(`""`, `"\u0000"`)...)
+	hostile.Idents = append(hostile.Idents, model.T(model.QID, "\"\xff\xff\xff\xff\""), model.T(model.QID, "\"\xc3\xc3\xc3\""))
 	hostile.Nums = append(hostile.Nums, univ.Tks("9223372036854775807", "-9223372036854775808", "99999999999999999999", "-0")...)
 	hostile.Slices = [][]model.Tok{univ.Tks(":", ":", "9223372036854775807"), univ.Tks("-9223372036854775808", ":"), univ.Tks(":", ":", "-9223372036854775808"), univ.Tks(":", "99999999999999999999")}
 	hostile.Filter, hostile.Star, hostile.Or, hostile.Not = true, true, true, true
@@ -258,7 +259,20 @@ func checkC05(r *harness.Run) harness.Coverage {
 			})
 		}
 	}
-	r.Evaluations = strs + pumped + gen + searches + stepCalls
+	// calls with many arguments (fixed-size argument buffers), every built-in and an unknown name
+	var manyArgs int64
+	for _, fn := range append(model.FunctionNames(), "nosuch") {
+		for _, n := range []int{7, 8, 9, 10, 16, 17, 33, 64, 65, 256} {
+			for _, arg := range []string{"a", "`1`", "&a", "@"} {
+				text := fn + "(" + strings.TrimSuffix(strings.Repeat(arg+", ", n), ", ") + ")"
+				_, s := tryExpr(r, text, hostileDocs[:12], "")
+				manyArgs++
+				searches += s
+			}
+		}
+	}
+	r.Note("many_argument_calls", manyArgs)
+	r.Evaluations = strs + pumped + gen + searches + stepCalls + manyArgs
 	r.Traces = strs + pumped + gen
 	r.States = strs + pumped + gen
 	r.Transitions = strs + pumped + gen + searches
